@@ -205,7 +205,6 @@ def handle (args : List String) : String :=
         | .error e => "err parse:" ++ errStr e
         | .ok m =>
           match tryResolve m with
-          | .error .fuel => "abort"
           | .error e => "err resolve:" ++ errStr e
           | .ok _ => "ok"
   | _ => "bad-op"
